@@ -8,20 +8,20 @@ import (
 
 // The resource universe of every run (DESIGN.md §4.1).
 var (
-	ResThing        = &Resource{Group: "ctl.example.com", Version: "v1", Plural: "things", Kind: "Thing", Namespaced: true, Status: true, Generation: true}
-	ResClusterThing = &Resource{Group: "ctl.example.com", Version: "v1", Plural: "clusterthings", Kind: "ClusterThing", Namespaced: false, Status: true, Generation: true}
-	ResTarget       = &Resource{Group: "ctl.example.com", Version: "v1", Plural: "targets", Kind: "Target", Namespaced: true, Status: true, Generation: true}
-	ResBareTarget   = &Resource{Group: "ctl.example.com", Version: "v1", Plural: "baretargets", Kind: "BareTarget", Namespaced: true, Status: false, Generation: true}
-	ResWidget       = &Resource{Group: "kids.example.com", Version: "v1", Plural: "widgets", Kind: "Widget", Namespaced: true, Status: true, Generation: true}
-	ResGadget       = &Resource{Group: "kids.example.com", Version: "v1beta1", Plural: "gadgets", Kind: "Gadget", Namespaced: true, Status: false, Generation: true}
+	ResThing         = &Resource{Group: "ctl.example.com", Version: "v1", Plural: "things", Kind: "Thing", Namespaced: true, Status: true, Generation: true}
+	ResClusterThing  = &Resource{Group: "ctl.example.com", Version: "v1", Plural: "clusterthings", Kind: "ClusterThing", Namespaced: false, Status: true, Generation: true}
+	ResTarget        = &Resource{Group: "ctl.example.com", Version: "v1", Plural: "targets", Kind: "Target", Namespaced: true, Status: true, Generation: true}
+	ResBareTarget    = &Resource{Group: "ctl.example.com", Version: "v1", Plural: "baretargets", Kind: "BareTarget", Namespaced: true, Status: false, Generation: true}
+	ResWidget        = &Resource{Group: "kids.example.com", Version: "v1", Plural: "widgets", Kind: "Widget", Namespaced: true, Status: true, Generation: true}
+	ResGadget        = &Resource{Group: "kids.example.com", Version: "v1beta1", Plural: "gadgets", Kind: "Gadget", Namespaced: true, Status: false, Generation: true}
 	ResClusterWidget = &Resource{Group: "kids.example.com", Version: "v1", Plural: "clusterwidgets", Kind: "ClusterWidget", Namespaced: false, Status: false, Generation: true}
-	ResConfigMap    = &Resource{Group: "", Version: "v1", Plural: "configmaps", Kind: "ConfigMap", Namespaced: true}
-	ResSecret       = &Resource{Group: "", Version: "v1", Plural: "secrets", Kind: "Secret", Namespaced: true}
-	ResNamespace    = &Resource{Group: "", Version: "v1", Plural: "namespaces", Kind: "Namespace", Namespaced: false, Status: true}
-	ResRevision     = &Resource{Group: "metacontroller.k8s.io", Version: "v1alpha1", Plural: "controllerrevisions", Kind: "ControllerRevision", Namespaced: true, Generation: true}
-	ResCompositeCtl = &Resource{Group: "metacontroller.k8s.io", Version: "v1alpha1", Plural: "compositecontrollers", Kind: "CompositeController", Namespaced: false, Generation: true}
-	ResDecoratorCtl = &Resource{Group: "metacontroller.k8s.io", Version: "v1alpha1", Plural: "decoratorcontrollers", Kind: "DecoratorController", Namespaced: false, Generation: true}
-	ResCRD          = &Resource{Group: "apiextensions.k8s.io", Version: "v1", Plural: "customresourcedefinitions", Kind: "CustomResourceDefinition", Namespaced: false, Status: true, Generation: true}
+	ResConfigMap     = &Resource{Group: "", Version: "v1", Plural: "configmaps", Kind: "ConfigMap", Namespaced: true}
+	ResSecret        = &Resource{Group: "", Version: "v1", Plural: "secrets", Kind: "Secret", Namespaced: true}
+	ResNamespace     = &Resource{Group: "", Version: "v1", Plural: "namespaces", Kind: "Namespace", Namespaced: false, Status: true}
+	ResRevision      = &Resource{Group: "metacontroller.k8s.io", Version: "v1alpha1", Plural: "controllerrevisions", Kind: "ControllerRevision", Namespaced: true, Generation: true}
+	ResCompositeCtl  = &Resource{Group: "metacontroller.k8s.io", Version: "v1alpha1", Plural: "compositecontrollers", Kind: "CompositeController", Namespaced: false, Generation: true}
+	ResDecoratorCtl  = &Resource{Group: "metacontroller.k8s.io", Version: "v1alpha1", Plural: "decoratorcontrollers", Kind: "DecoratorController", Namespaced: false, Generation: true}
+	ResCRD           = &Resource{Group: "apiextensions.k8s.io", Version: "v1", Plural: "customresourcedefinitions", Kind: "CustomResourceDefinition", Namespaced: false, Status: true, Generation: true}
 )
 
 var universe = []*Resource{
